@@ -223,6 +223,15 @@ func TestC05Proc(t *testing.T) {
 				Ops:  []string{"new", "start", "sleep:1500", "proc?", "kill", "proc?"}})
 		}
 	}
+	// managed clients whose start failed, cleaned up through CleanupClients (never through their own Kill): process gone,
+	// the custom runner's socket directory removed
+	for _, name := range []string{"bad app version", "exit before output", "short line", "silence until timeout"} {
+		for _, launch := range []string{"cmd", "runner"} {
+			cells = append(cells, Cell{Name: fmt.Sprintf("launch=%s cause=%s, managed client cleaned up by CleanupClients", launch, name), Plugin: PluginConf{LegacyProto: "netrpc"},
+				Host: HostConf{Allowed: []string{"netrpc", "grpc"}, TLS: "none", Launch: launch, Legacy: 1, Script: scripts[name], StartTimeoutMs: 1500, Managed: true},
+				Ops:  []string{"new", "start", "sleep:1500", "proc?", "cleanup", "proc?"}})
+		}
+	}
 	// the application had preset Cmd.Stdin to a reader that stays open and silent
 	for _, name := range []string{"bad app version", "silence until timeout", "exit before output", "short line"} {
 		cells = append(cells, Cell{Name: fmt.Sprintf("launch=cmd cause=%s, Cmd.Stdin preset to an idle pipe", name), Plugin: PluginConf{LegacyProto: "netrpc"},
